@@ -949,6 +949,13 @@ func (x *Exec) callFunc(st *State, fr *Frame, ci *callInfo, fn *ssa.Function, ar
 		if cls, ok := x.root.AtCalls[shortFuncName(fn)]; ok {
 			c := x.envFor(st, x.entry, st.Frames[0], nil)
 			c.frames = st.Frames
+			for i, a := range args {
+				var pt types.Type
+				if i < len(fn.Params) {
+					pt = fn.Params[i].Type()
+					c.names["arg_"+fn.Params[i].Name()] = cv{V: a, T: pt}
+				}
+			}
 			for _, cl := range cls {
 				if !cl.appliesTo(x.root.Prop) {
 					continue
